@@ -221,6 +221,11 @@ fn main() {
     let rot_first = FamParams { gates: vec![GateKind::NextFirst, GateKind::Mul], n_committed: 0, n_plain: 1, ..FamParams::default() };
     both_hashes(&mut ctx, &mut setup, &rot_first, 1, 0, 15, true);
     both_hashes(&mut ctx, &mut setup, &rot_first, 2, 0, 16, false);
+    // plain instance column queried at rotations -1, 0, +1 (asymmetric coefficients)
+    let inst_rot = FamParams { gates: vec![GateKind::InstRot, GateKind::Mul], n_committed: 0, n_plain: 1, ..FamParams::default() };
+    both_hashes(&mut ctx, &mut setup, &inst_rot, 1, 0, 17, true);
+    let inst_rot2 = FamParams { gates: vec![GateKind::InstRot, GateKind::LinRot], n_committed: 1, n_plain: 2, ..FamParams::default() };
+    both_hashes(&mut ctx, &mut setup, &inst_rot2, 2, 0, 18, false);
 
     let (n_random, search_cfgs) = match ctx.tier.as_str() {
         "quick" => (14, false),
